@@ -230,6 +230,8 @@ var c06multi = [][]string{
 	{"\x01 = 1\n", "h = \x02\ni = \x02\n", "\x03 = 2\n", "m = \x04\n"},
 	// a use at the line and column at which another file declares the global
 	{"\x01 = {}\n", "\x02.y = 2\n", "print(\x03)\n", "\x04 = nil\n"},
+	// a global named like its module file, loaded by a bare require statement / a require assigned to a global
+	{"a = {}\na.v = 1\n", "require(\"a\")\nq = a.v\nh = a\n", "r = require(\"a\")\ns = a\nt = r\n", "m = \x04\n"},
 }
 
 func c06multiRun(src common.CheckReferenceSrc, tag, prefix string) {
